@@ -98,6 +98,19 @@ var c06Probes = []string{
 	`[($a 1) &a:5]`,
 }
 
+// every kind of value as a marked object that is referenced afterwards, in a list and as a map value
+func init() {
+	for _, x := range []string{"true", "1", "-1", "1.5", "0x1.8p1", "1.5e400", "123456789012345678901234567890", "-0", "nan", "snan", "inf", "-inf",
+		`"str"`, `@"http://x.org/a"`, "2f2c3c9f-c825-573f-a3e5-8af37a3fd162", "2020-01-15", "10:00:01.5/E/Berlin", "2020-01-15/10:00:01/1.50/-2.25",
+		"@u8[1 2 3]", "@u16[1 2]", "@i64[-1]", "@b[101]", "@f32[1.5 -2]", "@f16[1.5]", "@uid[2f2c3c9f-c825-573f-a3e5-8af37a3fd162]",
+		"@application/x[01 02 03]", "[1 2]", "{1=2}", "(1 2 3)", "[]", "{}", `""`, "@u8[]", "null"} {
+		if x != "null" {
+			c06Probes = append(c06Probes, "[&a:"+x+" 7 $a]")
+		}
+		c06Probes = append(c06Probes, `{"k"=&a:`+x+` "z"=0 "r"=$a}`)
+	}
+}
+
 // c06ProbeEvents decodes a probe's CTE text (without rules: the events are then validated like a generated stream).
 func c06ProbeEvents(text string) ([]ev.Event, error) {
 	res := decodeDoc(ce.NewCTEDecoder(configuration.New()), []byte("c0\n"+text), configuration.New(), false)
